@@ -258,15 +258,64 @@ def _given(rep):
     return "" if rep is None else " [evaluation point given as %s]" % rep
 
 
-def observe(case, kind, x, fd, fd_eps, rep=None, cache=None):
+def held_arrays(obj, n, limit=4):
+    """Facet 'identity of the evaluation point': the float64 vectors with n entries that the object under test HOLDS, i.e. that are
+    reachable from it through instance attributes (and lists / tuples / dicts in them) of objects of the library or of the
+    harness - the likelihood's data, a mean / location / scale / shape vector, a grid of a geometry ...  Returned in a fixed walk
+    order (attribute names sorted), distinct objects only, at most `limit`: list of (attribute path, the array object itself)."""
+    out, seen = [], set()
+
+    def walk(o, path, depth):
+        if len(out) >= limit or depth > 6 or id(o) in seen:
+            return
+        seen.add(id(o))
+        if isinstance(o, np.ndarray):
+            if type(o) is np.ndarray and o.dtype == np.float64 and o.ndim == 1 and o.size == n and o.flags.writeable:
+                out.append((path, o))
+            return
+        if isinstance(o, (list, tuple)):
+            for j, v in enumerate(o):
+                walk(v, "%s[%d]" % (path, j), depth + 1)
+        elif isinstance(o, dict):
+            for kk in sorted(o, key=str):
+                walk(o[kk], "%s[%r]" % (path, kk), depth + 1)
+        elif (type(o).__module__ or "").startswith(("cuqi", "checks.")) and hasattr(o, "__dict__"):
+            for kk in sorted(vars(o)):
+                walk(vars(o)[kk], "%s.%s" % (path, kk), depth + 1)
+    walk(obj, "obj", 0)
+    return out
+
+
+def kink_at(obj, x):
+    """is the object's logd kinked (or not finite) at / next to x along some axis?  jump(h) = forward minus backward difference
+    quotient: ~ f''*h for a smooth logd (quarters when h is quartered), ~ constant at a kink"""
+    x = np.array(x, dtype=float, copy=True)
+    try:
+        f0 = _logd_scalar(obj, x)
+        for i in range(x.size):
+            jump = []
+            for h in (H1, H1 / 4):
+                e = np.zeros(x.size); e[i] = h
+                jump.append((_logd_scalar(obj, x + e) - 2.0 * f0 + _logd_scalar(obj, x - e)) / h)
+            if not np.all(np.isfinite(jump)):
+                return True
+            if abs(jump[0]) > 1e-7 and abs(jump[1]) > 0.6 * abs(jump[0]):
+                return True
+    except Exception:
+        return True
+    return False
+
+
+def observe(case, kind, x, fd, fd_eps, rep=None, cache=None, given=None):
     """Evaluate gradient at x on the real object and classify.  Returns dict(status=..., ...).
+    given : hand THIS array object (holding the values x) to gradient() instead of a private copy of x
 
     status: 'ok' | 'refused' | 'skip' | 'bad'; for 'bad' cls in {'value','shape','none'}
     rep   : representation in which the (integer-valued) point is handed to gradient(); the reference is always the
             Richardson derivative of the object's logd at the float64 version of the point
     cache : dict shared by the representations of one point (the reference is computed once)"""
     x = np.array(x, dtype=float, copy=True)
-    xin = hand_over(x, rep)
+    xin = hand_over(x, rep) if given is None else given
     try:
         g = case.obj.gradient(xin)
     except Exception as e:
